@@ -250,6 +250,33 @@ func (x *Exec) nativeFunc(e *Env, callee *types.Func, n *ast.CallExpr) (Value, b
 		}
 		r.Cap = r.Len
 		return r, true
+	case "sync/atomic.LoadUint32", "sync/atomic.LoadUint64", "sync/atomic.LoadInt32", "sync/atomic.LoadInt64":
+		// a shared variable: another goroutine may have written it, the value read is arbitrary
+		x.trusted["sync/atomic loads return an arbitrary value of the type (other goroutines may write the variable); stores and adds make the variable arbitrary"] = true
+		sig := callee.Type().(*types.Signature)
+		pv, ok := e.expr(n.Args[0]).(PtrV)
+		if ok {
+			x.safety(e, "nil", n, Not(pv.Nil))
+		}
+		return x.havoc(e, sig.Results().At(0).Type(), "atomic.load"), true
+	case "sync/atomic.StoreUint32", "sync/atomic.StoreUint64", "sync/atomic.AddUint32", "sync/atomic.AddUint64", "sync/atomic.AddInt32", "sync/atomic.AddInt64":
+		x.trusted["sync/atomic loads return an arbitrary value of the type (other goroutines may write the variable); stores and adds make the variable arbitrary"] = true
+		pv, ok := e.expr(n.Args[0]).(PtrV)
+		if !ok {
+			unsupported("%s: atomic operation on %T", e.where, e.expr(n.Args[0]))
+		}
+		x.safety(e, "nil", n, Not(pv.Nil))
+		if pv.Alloc != 0 {
+			cell := navigate(x.memCell(e.st, pv.Alloc), pv.Path)
+			if sc, isS := cell.(Scalar); isS {
+				x.setMem(e.st, pv.Alloc, pv.Path, x.havoc(e, sc.Typ, "atomic.cell"))
+			}
+		}
+		sig := callee.Type().(*types.Signature)
+		if sig.Results().Len() == 1 {
+			return x.havoc(e, sig.Results().At(0).Type(), "atomic.add"), true
+		}
+		return TupleV{}, true
 	case "math.Pow", "math.Log", "math.Ceil", "math.Floor", "math.Exp", "math.Sqrt", "math.Log2", "math.Abs":
 		return x.mathFloatFunc(e, key, n)
 	case "github.com/iotaledger/iota.go/curl.NewCurlP81":
